@@ -130,6 +130,7 @@ void do_call_t(MockType& m, int fn, int a0, int a1, Obs& o) {
     case FN_K: { int cell = a0; const MockType& cm = m; const int& r = cm.k(cell); o.refaddr = &r; o.outcome = OC_RET_REF; break; }
     case FN_Z: m.z(); o.outcome = OC_RET_VOID; break;
     case FN_V: { std::vector<Tracked> vec; vec.reserve(3); vec.emplace_back(a0); vec.emplace_back(a0 + 1); vec.emplace_back(a0); m.v(vec); o.outcome = OC_RET_VOID; break; }
+    case FN_CF: { const MockType& cm = m; o.value = cm.f(a0); o.outcome = OC_RET_INT; break; }
     case FN_P: { auto pr = m.p(a0); o.sval = "{ " + std::to_string(pr.first) + ", " + std::to_string(pr.second) + " }"; o.outcome = OC_RET_STR; break; }
     default: break;
   }
@@ -299,7 +300,7 @@ Plan gen_plan_t(uint64_t seed, bool faults) {
   for (int i = 0; i < nseqs; ++i) { Op o; o.kind = OP_NEW_SEQ; p.setup.push_back(o); }
   if (rng.chance(1, 3)) { Op o; o.kind = OP_PUSH_TRACER; p.setup.push_back(o); }
   int nfocus = rng.range(1, 2), focus[2] = {0, 0};
-  static const int fw[NFN] = {10, 3, 5, 1, 2, 1, 2, 1, 2, 1, 1};
+  static const int fw[NFN] = {10, 3, 5, 1, 2, 1, 2, 1, 2, 1, 1, 2};
   for (int i = 0; i < nfocus; ++i) focus[i] = rng.pick(fw, NFN);
   auto gen_expect = [&](bool want_seq) {
     Op o; o.kind = OP_EXPECT;
